@@ -61,6 +61,9 @@ func runC17(e *netpoll.Env) {
 						lb := netpoll.NewLinkBuffer()
 						buf, _ := lb.Malloc(c17Rec)
 						copy(buf, fmt.Sprintf("G%06d;", g.id))
+						if g.id%3 == 1 {
+							lb.Flush() // some producers hand over a buffer they have already submitted
+						}
 						return lb, false
 					})
 				}
